@@ -1,5 +1,368 @@
-/- Model for C13 (core Lean only, no Mathlib). -/
+/-
+Model for C13 — chunked (dask) reprojection versus whole-array reprojection
+(core Lean only, no Mathlib).
+
+Mirrors, function by function
+
+  * `odc/geo/_dask.py`   `resolve_fill_value`, `_do_chunked_reproject`, `_dask_rio_reproject`
+  * `odc/geo/_blocks.py` `BlockAssembler.extract` (full-plane roi)
+  * `odc/geo/roi.py`     `clip_tiles`, `VariableSizedTiles.crop/__getitem__`, `Tiles.__getitem__`
+  * `odc/geo/geobox.py`  `GeoboxTiles.clip`, `GeoBox.__getitem__` (crop = transform * translation)
+  * `odc/geo/warp.py`    `rio_reproject` (NaN default), `_rio_reproject` (bool stretching)
+  * `odc/geo/_xr_interop.py` `_xr_reproject_da` (nodata defaulting, dask / numpy dispatch)
+
+as they are on branch `fix-C13` (two repairs: F10 and the boolean-nodata sibling); the code
+as found is kept selectable through `Variant` so that the defects are provable about the model.
+
+Not odc-geo code (reference semantics, validated against rasterio/GDAL by the harness on every
+run): `samplePix`, `gdalNearest`, `effNodata`, `initVal` — nearest-neighbour
+`rasterio.warp.reproject` between two grids sharing a CRS.
+
+The dependency map `deps` (= `GeoboxTiles.grid_intersect`, property C12) is an input; its
+completeness is the explicit hypothesis `deps_complete` of the theorems.
+
+Images are functions `(row, col) ↦ Option Val`; `none` = outside the array.  Index errors of the
+code (`IndexError` of a tile lookup) are `none` of the `Option` monad.
+-/
 import OdcGeo.Model.IO
+import OdcGeo.Model.Affine
 namespace OdcGeo.C13
+
+/-- A pixel value: NaN or a number (integer valued; nearest neighbour only copies values). -/
+inductive Val where
+  | nan
+  | num (v : Int)
+  deriving DecidableEq, Repr, Inhabited
+
+/-- What the code distinguishes about a dtype: `np.issubdtype(dtype, np.floating)`
+(`dst.dtype.kind == "f"`), `bool` (stretched to 0/255 for GDAL), anything else. -/
+inductive DKind where
+  | float | int | bool
+  deriving DecidableEq, Repr
+
+abbrev Img := Int × Int → Option Val
+/-- `(start, stop)` of a tile along one axis. -/
+abbrev Span := Int × Int
+/-- `(row, col)` index of a tile / dask block. -/
+abbrev TIdx := Nat × Nat
+
+/-- Which revision of the code is modelled.  `repaired` is the code on `fix-C13`. -/
+structure Variant where
+  /-- F10: `_do_chunked_reproject` defaults `dst_nodata` to NaN for float data without nodata -/
+  nanDefault : Bool
+  /-- `_rio_reproject` stretches the nodata values of boolean rasters like the pixels -/
+  boolNodata : Bool
+  deriving DecidableEq, Repr
+
+def Variant.repaired : Variant := ⟨true, true⟩
+def Variant.asFound : Variant := ⟨false, false⟩
+
+/-- `np.full((h, w), v)` -/
+def full (h w : Int) (v : Val) : Img := fun p =>
+  if 0 ≤ p.1 ∧ p.1 < h ∧ 0 ≤ p.2 ∧ p.2 < w then some v else none
+
+/-- `img[ys.start:ys.stop, xs.start:xs.stop]` re-indexed from 0: one dask block / a crop. -/
+def window (img : Img) (ys xs : Span) : Img := fun p =>
+  if 0 ≤ p.1 ∧ p.1 < ys.2 - ys.1 ∧ 0 ≤ p.2 ∧ p.2 < xs.2 - xs.1
+  then img (ys.1 + p.1, xs.1 + p.2) else none
+
+/-! ### fill value resolution (`_dask.py:14-23`) -/
+
+/-- `resolve_fill_value(dst_nodata, src_nodata, dtype)` (nodata already cast to the dtype). -/
+def resolveFill (dstNd srcNd : Option Val) (k : DKind) : Val :=
+  match dstNd with
+  | some v => v
+  | none =>
+    match srcNd with
+    | some v => v
+    | none => match k with
+      | .float => .nan
+      | _ => .num 0
+
+/-! ### reference semantics of `rasterio.warp.reproject`, nearest neighbour, same CRS -/
+
+/-- The source pixel sampled for destination pixel `d = (row, col)`: the centre of `d` mapped by
+`A` (destination pixel coordinates → source pixel coordinates, `(x, y)` order); reached iff it
+falls in `[0, w) × [0, h)`; the pixel is the floor. -/
+def samplePix (A : Aff) (h w : Int) (d : Int × Int) : Option (Int × Int) :=
+  let p := A.apply ((d.2 : Rat) + 1 / 2, (d.1 : Rat) + 1 / 2)
+  if 0 ≤ p.1 ∧ p.1 < (w : Rat) ∧ 0 ≤ p.2 ∧ p.2 < (h : Rat)
+  then some (p.2.floor, p.1.floor) else none
+
+/-- Parameters of GDAL the theorems are generic in: the value written for a valid source value
+given the effective destination nodata (GDAL nudges a valid value that collides with it). -/
+structure Gdal where
+  emit : Option Val → Val → Val
+
+/-- rasterio: `dst_nodata if dst_nodata is not None else src_nodata`. -/
+def effNodata (dstNd srcNd : Option Val) : Option Val :=
+  match dstNd with
+  | some v => some v
+  | none => srcNd
+
+/-- rasterio ≥ 1.4: `INIT_DEST = NO_DATA` if there is a destination nodata, else `0`;
+the caller's buffer content is never kept. -/
+def initVal : Option Val → Val
+  | some v => v
+  | none => .num 0
+
+/-- `rasterio.warp.reproject(src, buf, …, resampling=nearest, src_nodata, dst_nodata)` for two
+grids of one CRS; `A` = destination pixel → source pixel.  `buf` only contributes its shape. -/
+def gdalNearest (G : Gdal) (src : Img) (sh sw : Int) (buf : Img) (A : Aff)
+    (srcNd dstNd : Option Val) : Img := fun d =>
+  match buf d with
+  | none => none
+  | some _ =>
+    let dn := effNodata dstNd srcNd
+    match samplePix A sh sw d with
+    | none => some (initVal dn)
+    | some s =>
+      match src s with
+      | none => none
+      | some v => if srcNd = some v then some (initVal dn) else some (G.emit dn v)
+
+/-! ### `_rio_reproject`, `rio_reproject`  (`warp.py:105-237`) -/
+
+/-- `_alias_or_convert`: `np.where(arr, 255, 0)` for bool; int8 → int16 keeps the value. -/
+def encVal (k : DKind) (v : Val) : Val :=
+  match k with
+  | .bool => if v = .num 0 then .num 0 else .num 255
+  | _ => v
+
+/-- copy back: `_dst > 127` for bool. -/
+def decVal (k : DKind) (v : Val) : Val :=
+  match k with
+  | .bool => match v with
+    | .num n => if n > 127 then .num 1 else .num 0
+    | .nan => .num 0
+  | _ => v
+
+/-- `_stretch_nodata` (repaired code only): `255 if nodata else 0` for bool. -/
+def encNodata (V : Variant) (k : DKind) (nd : Option Val) : Option Val :=
+  match k with
+  | .bool => if V.boolNodata then nd.map (encVal .bool) else nd
+  | _ => nd
+
+def encImg (k : DKind) (img : Img) : Img := fun p => (img p).map (encVal k)
+
+/-- `_rio_reproject(src, dst, s_gbox, d_gbox, "nearest", src_nodata, dst_nodata)`;
+`S`, `D` are the geobox transforms (pixel → world); GDAL maps destination pixels through
+`~S * D`. -/
+def rioReprojectPlane (V : Variant) (G : Gdal) (k : DKind) (src : Img) (sh sw : Int) (buf : Img)
+    (S D : Aff) (srcNd dstNd : Option Val) : Img := fun d =>
+  (gdalNearest G (encImg k src) sh sw (encImg k buf) (S.inv * D)
+    (encNodata V k srcNd) (encNodata V k dstNd) d).map (decVal k)
+
+/-- `rio_reproject`: `dst_nodata = NaN` when none was given and the destination is floating. -/
+def rioNodataDefault (k : DKind) (dstNd : Option Val) : Option Val :=
+  match dstNd with
+  | some v => some v
+  | none => if k = .float then some .nan else none
+
+def rioReproject (V : Variant) (G : Gdal) (k : DKind) (src : Img) (sh sw : Int) (buf : Img)
+    (S D : Aff) (srcNd dstNd : Option Val) : Img :=
+  rioReprojectPlane V G k src sh sw buf S D srcNd (rioNodataDefault k dstNd)
+
+/-! ### tilings (`roi.py`) -/
+
+/-- `VariableSizedTiles(chunks)`: offsets are the cumulative sums. -/
+def chunksTilingFrom (off : Int) : List Nat → List Span
+  | [] => []
+  | n :: r => (off, off + n) :: chunksTilingFrom (off + n) r
+
+def chunksTiling (chunks : List Nat) : List Span := chunksTilingFrom 0 chunks
+
+/-- `Tiles(N, n)`: `ceil(N / n)` tiles `[i*n, min((i+1)*n, N))`. -/
+def regularTiling (N n : Nat) : List Span :=
+  (List.range ((N + n - 1) / n)).map fun i => (((i * n : Nat) : Int), ((min ((i + 1) * n) N : Nat) : Int))
+
+/-- Index of the tile containing pixel coordinate `p` (dask: which block holds the pixel). -/
+def locate : List Span → Int → Option Nat
+  | [], _ => none
+  | s :: r, p => if s.1 ≤ p ∧ p < s.2 then some 0 else (locate r p).map (· + 1)
+
+/-- `ii.min(axis=0)`, `ii.max(axis=0)` of `clip_tiles` along one axis (`ValueError` on empty). -/
+def minMax : List Nat → Option (Nat × Nat)
+  | [] => none
+  | a :: r =>
+    match minMax r with
+    | none => some (a, a)
+    | some (lo, hi) => some (min a lo, max a hi)
+
+/-- One axis of `GeoboxTiles.clip`: pixel window `tiles[lo:hi+1]` and the cropped tiling
+(`VariableSizedTiles.crop`) re-based at 0. -/
+def clipSpans (t : List Span) (lo hi : Nat) : Option (Span × List Span) := do
+  let a ← t[lo]?
+  let b ← t[hi]?
+  pure ((a.1, b.2), ((t.drop lo).take (hi + 1 - lo)).map fun s => (s.1 - a.1, s.2 - a.1))
+
+/-- structural `mapM` in `Option` -/
+def mapOpt {α β} (f : α → Option β) : List α → Option (List β)
+  | [] => some []
+  | a :: r =>
+    match f a, mapOpt f r with
+    | some b, some bs => some (b :: bs)
+    | _, _ => none
+
+/-! ### `BlockAssembler.extract`  (`_blocks.py:127-172`) -/
+
+/-- `np.copyto(xx[d_roi], block[s_roi])` for the tile at `ys × xs`. -/
+def pasteBlock (acc : Img) (ys xs : Span) (b : Img) : Img := fun p =>
+  if ys.1 ≤ p.1 ∧ p.1 < ys.2 ∧ xs.1 ≤ p.2 ∧ p.2 < xs.2 then b (p.1 - ys.1, p.2 - xs.1) else acc p
+
+/-- the loop `for idx, block in self._blocks.items()` over the initial `np.full(..., fill)`. -/
+def assemble (cy cx : List Span) : List (TIdx × Img) → Img → Option Img
+  | [], acc => some acc
+  | (idx, b) :: rest, acc => do
+    let ys ← cy[idx.1]?
+    let xs ← cx[idx.2]?
+    assemble cy cx rest (pasteBlock acc ys xs b)
+
+/-- `fill_value=src_nodata`; `None` → NaN for floating point, else 0. -/
+def extractFill (srcNd : Option Val) (k : DKind) : Val :=
+  match srcNd with
+  | some v => v
+  | none => match k with
+    | .float => .nan
+    | _ => .num 0
+
+/-! ### the chunked path (`_dask.py`) -/
+
+structure Cfg where
+  variant : Variant
+  kind : DKind
+  /-- source geobox: shape and transform -/
+  srcH : Int
+  srcW : Int
+  S : Aff
+  /-- destination geobox -/
+  dstH : Int
+  dstW : Int
+  D : Aff
+  /-- source chunking (`src.chunks[ydim:ydim+2]`) and destination chunking, per axis -/
+  sy : List Span
+  sx : List Span
+  dy : List Span
+  dx : List Span
+  /-- `d2s_idx = gbt_dst.grid_intersect(gbt_src)` -/
+  deps : List (TIdx × List TIdx)
+  srcNd : Option Val
+  dstNd : Option Val
+
+/-- `d2s_idx.get((y, x), [])` -/
+def lookupDeps (deps : List (TIdx × List TIdx)) (idx : TIdx) : List TIdx :=
+  match deps.lookup idx with
+  | some l => l
+  | none => []
+
+/-- block `idx` of the dask source array -/
+def srcBlock (src : Img) (sy sx : List Span) (idx : TIdx) : Option Img := do
+  let ys ← sy[idx.1]?
+  let xs ← sx[idx.2]?
+  pure (window src ys xs)
+
+/-- the `dst_nodata` handed to `_rio_reproject` by `_do_chunked_reproject` (F10 repair). -/
+def chunkDstNodata (V : Variant) (k : DKind) (srcNd dstNd : Option Val) : Option Val :=
+  match dstNd, srcNd with
+  | none, none => if V.nanDefault ∧ k = .float then some .nan else none
+  | d, _ => d
+
+/-- `_do_chunked_reproject(d2s, src_gbt, dst_gbt, dst_idx, *blocks)` for one plane:
+clip the source tiling to the needed tiles, assemble the blocks over a `src_nodata` fill,
+warp into a zero-initialised chunk. -/
+def doChunkedReproject (c : Cfg) (G : Gdal) (dstIdx : TIdx) (blocks : List Img) : Option Img := do
+  let sel := lookupDeps c.deps dstIdx
+  let (y1, y2) ← minMax (sel.map (·.1))
+  let (x1, x2) ← minMax (sel.map (·.2))
+  let (wy, cy) ← clipSpans c.sy y1 y2
+  let (wx, cx) ← clipSpans c.sx x1 x2
+  let selNew := sel.map fun i => (i.1 - y1, i.2 - x1)
+  let S' := c.S * Aff.translation wx.1 wy.1
+  let ty ← c.dy[dstIdx.1]?
+  let tx ← c.dx[dstIdx.2]?
+  let D' := c.D * Aff.translation tx.1 ty.1
+  let h' := wy.2 - wy.1
+  let w' := wx.2 - wx.1
+  let asm ← assemble cy cx (selNew.zip blocks) (full h' w' (extractFill c.srcNd c.kind))
+  let dst := full (ty.2 - ty.1) (tx.2 - tx.1) (.num 0)
+  pure (rioReprojectPlane c.variant G c.kind asm h' w' dst S' D' c.srcNd
+          (chunkDstNodata c.variant c.kind c.srcNd c.dstNd))
+
+/-- `(np.full, b_shape, fill_value, dtype)` -/
+def constBlock (c : Cfg) (idx : TIdx) : Option Img := do
+  let ty ← c.dy[idx.1]?
+  let tx ← c.dx[idx.2]?
+  pure (full (ty.2 - ty.1) (tx.2 - tx.1) (resolveFill c.dstNd c.srcNd c.kind))
+
+/-- the task of destination block `idx` as a function of its dependency blocks
+(`_dask_rio_reproject`: `(proc, (y, x), *block_deps)` if there are sources, else a constant). -/
+def dstTask (c : Cfg) (G : Gdal) (idx : TIdx) (blocks : List Img) : Option Img :=
+  if (lookupDeps c.deps idx).isEmpty then constBlock c idx
+  else doChunkedReproject c G idx blocks
+
+/-- destination block `idx` computed from the source blocks -/
+def dstBlock (c : Cfg) (G : Gdal) (src : Img) (idx : TIdx) : Option Img := do
+  let blocks ← mapOpt (srcBlock src c.sy c.sx) (lookupDeps c.deps idx)
+  dstTask c G idx blocks
+
+/-- pixel `d` of the computed dask array: the block holding it, at block-local coordinates. -/
+def daskResult (c : Cfg) (G : Gdal) (src : Img) : Img := fun d => do
+  let iy ← locate c.dy d.1
+  let ix ← locate c.dx d.2
+  let ty ← c.dy[iy]?
+  let tx ← c.dx[ix]?
+  let blk ← dstBlock c G src (iy, ix)
+  blk (d.1 - ty.1, d.2 - tx.1)
+
+/-- the in-memory path of `_xr_reproject_da`: `rio_reproject(src.values, np.empty(...), …)`;
+`buf` is the uninitialised destination. -/
+def wholeResult (c : Cfg) (G : Gdal) (src buf : Img) : Img :=
+  rioReproject c.variant G c.kind src c.srcH c.srcW buf c.S c.D c.srcNd c.dstNd
+
+/-- `_xr_reproject_da`: `src_nodata = kw.pop("src_nodata") or src.odc.nodata`,
+`dst_nodata = src_nodata` when not given. -/
+def xrNodata (attrNd kwSrcNd dstNd : Option Val) : Option Val × Option Val :=
+  let s := match kwSrcNd with
+    | some v => some v
+    | none => attrNd
+  let d := match dstNd with
+    | some v => some v
+    | none => s
+  (s, d)
+
+/-! ### the task graph and its execution (dask contract: a task runs after its dependencies
+and is a pure function of their values) -/
+
+inductive Key where
+  | src (i : TIdx)
+  | dst (i : TIdx)
+  deriving DecidableEq, Repr
+
+structure Task where
+  deps : List Key
+  fn : List Img → Option Img
+
+/-- layer of the source array (one getter per block) + the layer built by `_dask_rio_reproject`. -/
+def graph (c : Cfg) (G : Gdal) (src : Img) : Key → Option Task
+  | .src i => (srcBlock src c.sy c.sx i).map fun b => ⟨[], fun _ => some b⟩
+  | .dst i =>
+    if i.1 < c.dy.length ∧ i.2 < c.dx.length
+    then some ⟨(lookupDeps c.deps i).map Key.src, dstTask c G i⟩ else none
+
+abbrev Store := List (Key × Img)
+
+/-- run one task: all dependency values must already be in the store. -/
+def runTask (g : Key → Option Task) (st : Store) (k : Key) : Option Store := do
+  let t ← g k
+  let args ← mapOpt (fun d => st.lookup d) t.deps
+  let v ← t.fn args
+  pure ((k, v) :: st)
+
+/-- run tasks in the given order. -/
+def runOrder (g : Key → Option Task) : List Key → Store → Option Store
+  | [], st => some st
+  | k :: r, st => do
+    let st' ← runTask g st k
+    runOrder g r st'
 
 end OdcGeo.C13
